@@ -65,7 +65,7 @@ Cls gen_cls(vf::Src& s) {
 	for (size_t n = 1 + s.draw(3), k = 0; k < n; k++) c.m["k" + std::to_string(k)] = static_cast<int>(s.draw(100)); c.o = gen_str(s, 40); c.w = Convert::To<std::u16string>(gen_str(s, 20)); c.col = static_cast<Color>(s.draw(4)); c.pr = { gen_str(s, 10), static_cast<int>(s.draw(100)) };
 	c.tp = TimePoint(std::chrono::seconds(static_cast<int64_t>(s.draw(4000000000ull)) - 2000000000)); c.d = static_cast<double>(s.draw(100000)) / 8; return c;
 }
-std::vector<Row> gen_rows(vf::Src& s) { std::vector<Row> r; for (size_t n = 1 + s.draw(4); n > 0; n--) { Row x; x.a = gen_str(s, 30); x.n = static_cast<int>(s.draw(1000)); x.col = static_cast<Color>(s.draw(4)); x.d = static_cast<double>(s.draw(1000)) / 4; r.push_back(x); } return r; }
+std::vector<Row> gen_rows(vf::Src& s) { std::vector<Row> r; for (size_t n = 1 + s.draw(4); n > 0; n--) { Row x; x.a = gen_str(s, 30); if (s.coin()) { static const char* sp[] = { ",", ";", "\t", " ", "|", "\"" }; for (size_t k = 1 + s.draw(3); k > 0; k--) x.a += sp[s.draw(6)]; x.a += "z"; } x.n = static_cast<int>(s.draw(1000)); x.col = static_cast<Color>(s.draw(4)); x.d = static_cast<double>(s.draw(1000)) / 4; r.push_back(x); } return r; }
 
 // read-only data shared by all threads of a case
 struct Shared { Cls cls[2]; std::vector<Row> rows; std::string mp[2], js[2], xm[2], cs; std::string jsInvalid; std::string isoDates[4]; std::string numbers[4]; };
@@ -82,11 +82,11 @@ std::string run_op(const Op& op, const Shared& sh) {
 		case OpSaveMp: { Cls c = sh.cls[op.which]; std::string out; SaveObject<MsgPackArchive>(c, out); return out; }
 		case OpSaveJs: { Cls c = sh.cls[op.which]; std::string out; if (op.arg & 8) SaveObject<JsonArchive>(c, out, opt); else SaveObject<JsonArchive>(c, out); return out; }       // default options: the shared DefaultOptions object
 		case OpSaveXm: { Cls c = sh.cls[op.which]; std::string out; if (op.arg & 8) SaveObject<XmlArchive>(c, out, opt); else SaveObject<XmlArchive>(c, out); return out; }
-		case OpSaveCs: { auto r = sh.rows; std::string out; SaveObject<CsvArchive>(r, out); return out; }
+		case OpSaveCs: { auto r = sh.rows; std::string out; if (op.arg & 16) { static const char seps[] = { ',', ';', '\t', ' ', '|' }; SerializationOptions o2; o2.valuesSeparator = seps[(op.arg >> 8) % 5]; SaveObject<CsvArchive>(r, out, o2); } else SaveObject<CsvArchive>(r, out); return out; }   // per-thread separator; the cells hold the other separators
 		case OpSaveMpStream: { Cls c = sh.cls[op.which]; std::ostringstream os; SaveObject<MsgPackArchive>(c, os); return os.str(); }
 		case OpSaveJsStream: { Cls c = sh.cls[op.which]; std::ostringstream os; SaveObject<JsonArchive>(c, os, opt); return os.str(); }
 		case OpSaveXmStream: { Cls c = sh.cls[op.which]; std::ostringstream os; SaveObject<XmlArchive>(c, os, opt); return os.str(); }
-		case OpSaveCsStream: { auto r = sh.rows; std::ostringstream os; SaveObject<CsvArchive>(r, os, opt); return os.str(); }
+		case OpSaveCsStream: { auto r = sh.rows; std::ostringstream os; if (op.arg & 16) { static const char seps[] = { ',', ';', '\t', ' ', '|' }; opt.valuesSeparator = seps[(op.arg >> 8) % 5]; } SaveObject<CsvArchive>(r, os, opt); return os.str(); }
 		case OpLoadMp: { Cls c; LoadObject<MsgPackArchive>(c, sh.mp[op.which]); return resave(c); }
 		case OpLoadJs: { Cls c; LoadObject<JsonArchive>(c, sh.js[op.which]); return resave(c); }
 		case OpLoadXm: { Cls c; LoadObject<XmlArchive>(c, sh.xm[op.which]); return resave(c); }
